@@ -22,7 +22,7 @@ var c03TokensReduced = []string{"*", "^", "|", "a", "B", ".", "+", "?", "$", "{"
 
 // c03Idioms are regex idioms used as literals inside masks (sampled part).
 var c03Idioms = []string{"a{2}", "b{1,3}", "(x|y)", "[a-c]", "c+", "d?", "\\d", ".*x", "^a$", "a|b", "x{0}", "\\.", "[^/]", "(?i)", "\\x41",
-	"example", "org", "http", "://", "ads", "EXAMPLE", "a.b", "/", "x_y-1", "%2F"}
+	"example", "org", "http", "://", "ads", "EXAMPLE", "a.b", "/", "x_y-1", "%2F", "track\\$id=", "\\$", "adzone"}
 
 type c03Case struct {
 	Pattern    string   `json:"pattern"`
